@@ -121,9 +121,9 @@ pub fn sq() -> u8 {
 #[macro_export]
 macro_rules! cov {
     ($cond:expr, $msg:literal) => {{
-        #[cfg(kani)]
+        #[cfg(all(kani, not(feature = "nocover")))]
         { kani::cover!($cond, $msg); }
-        #[cfg(not(kani))]
+        #[cfg(not(all(kani, not(feature = "nocover"))))]
         { let _ = $cond; }
     }};
 }
